@@ -30,7 +30,8 @@ def explore(run, scenarios, random, pct, dfs, preempt, label):
     for x in rej:
         ev, rs = x["event"], x["reset"]
         what = {"use-after-close": "use-after-destroy", "opret": "operation-failed", "free": "released-twice", "closed": "not-released-on-close",
-                "final": "deadlock-or-panic", "session": "cached-session-not-shared", "double-close": "released-twice"}.get(ev.get("e"), "rejected-" + str(ev.get("e")))
+                "final": "deadlock-or-panic", "session": "cached-session-not-shared", "double-close": "released-twice",
+                "kms": "C20.system-key-unwrapped-more-than-once-per-interval"}.get(ev.get("e"), "rejected-" + str(ev.get("e")))
         run.findings.append({"kind": "%s scenario=%s strategy=%s" % (what, rs["scenario"]["name"], rs.get("strategy")),
                              "detail": "%s: %s (schedule of %d choices)" % (x["why"], json.dumps(ev)[:400], len(rs.get("choices", []))),
                              "case": {"scenario": rs["scenario"], "choices": rs.get("choices", []), "event": ev}})
@@ -39,7 +40,7 @@ def explore(run, scenarios, random, pct, dfs, preempt, label):
 
 def sc_key(name, **kw):
     d = dict(name=name, policy="lru", capacity=1, shared=True, sessCache=False, sessPolicy="lru", sessCap=1, sessExpiry=0, R=1000, workers=2, parts=2, ops=1,
-             ticks=0, revoke=False, samePart=False, churn=False)
+             ticks=0, revoke=False, samePart=False, churn=False, staleSK=False)
     d.update(kw)
     return d
 
@@ -82,6 +83,14 @@ def check_C16(run):
     return run.finish("model_checking",
                       "design: TLC explores SessionCache.tla (get / use / close / evict / remove steps, usage counter and condition variable) with HeldSessionNeverTornDown and exactly-once teardown, liveness under fairness; real code: %d workloads (policies, capacity 1-2 below the number of partitions, expiry by virtual clock, shared holders) x seeded random + PCT + systematic <= 2 preemptions; every schedule validated by TLC against RefMonitor.tla (operations on held sessions succeed, cached partition shared, everything released exactly once after factory close, no deadlock). non-trivial = schedule with at least one preemption" % len(scen),
                       ASSUME, explanation="%d schedules executed, %d traces / %d events accepted by TLC" % (run.evaluations, run.traces_validated, run.events_validated))
+
+
+def stale_sk_part(run):
+    """C20, concurrent part: several sessions hit a stale system key at once; it is unwrapped by the KMS once."""
+    q = run.quick
+    scen = [sc_key("stale-sk-2sessions", policy="simple", shared=False, R=1, staleSK=True, workers=2, parts=2, ops=1),
+            sc_key("stale-sk-3sessions-shared-ik", policy="lru", capacity=10, shared=True, R=1, staleSK=True, workers=3, parts=3, ops=1)]
+    return explore(run, scen, random=30 if q else 300, pct=100 if q else 1000, dfs=300 if q else 4000, preempt=2, label="stale-sk")
 
 
 def design(run, module, cfgname):
